@@ -124,6 +124,7 @@ class Interp:
         self.stub_sources = {}  # module name -> path of an interpreted stub source
         self.attr_overrides = {}  # "module.attr" -> value (stubs take precedence over loaded defs)
         self.contracts = {}  # qualname -> handler(interp, func, args, kwargs) for modular calls
+        self.observers = {}  # qualname -> callback(interp, func, args, kwargs, result): ghost recording only
         self.call_depth = 0
         self.max_call_depth = 200
         self.assumptions = set()
@@ -1764,6 +1765,11 @@ class Interp:
                 r = h(self, f, args, kwargs)
                 if r is not _MISSING:
                     return r
+            ob = self.observers.get(f.qualname) if self.observers else None
+            if ob is not None:
+                r = self.call_function(f, args, kwargs)
+                ob(self, f, args, kwargs, r)  # ghost observation of a call's arguments and result (no effect on it)
+                return r
             return self.call_function(f, args, kwargs)
         if isinstance(f, NativeFn):
             if f.wants_interp:
